@@ -2061,6 +2061,7 @@ static char *serr, *snum;
 
 typedef struct {
     Boolean MayChange, DoCross;
+    Boolean Rejected; /* set by SymbolAdder() when it disposed of the new entry */
 } TEnterStruct, *PEnterStruct;
 
 static Boolean SymbolAdder(PTree* PDest, PTree Neu, void* pData) {
@@ -2096,6 +2097,7 @@ static Boolean SymbolAdder(PTree* PDest, PTree Neu, void* pData) {
         }
         WrXError(ErrNum_DoubleDef, serr);
         FreeSymbolEntry(&NewEntry, TRUE);
+        EnterStruct->Rejected = True;
         return False;
     }
 
@@ -2113,6 +2115,7 @@ static Boolean SymbolAdder(PTree* PDest, PTree Neu, void* pData) {
                                     : ErrNum_ConstantRedefinedAsVariable,
                 serr);
         FreeSymbolEntry(&NewEntry, TRUE);
+        EnterStruct->Rejected = True;
         return False;
     }
 
@@ -2162,7 +2165,7 @@ static Boolean SymbolAdder(PTree* PDest, PTree Neu, void* pData) {
     }
 }
 
-static void EnterLocSymbol(PSymbolEntry Neu) {
+static Boolean EnterLocSymbol(PSymbolEntry Neu) {
     TEnterStruct EnterStruct;
     PTree        TreeRoot;
 
@@ -2171,9 +2174,11 @@ static void EnterLocSymbol(PSymbolEntry Neu) {
         NLS_UpString(Neu->Tree.Name);
     }
     EnterStruct.MayChange = EnterStruct.DoCross = FALSE;
+    EnterStruct.Rejected                        = False;
     TreeRoot                                    = &FirstLocSymbol->Tree;
     EnterTree(&TreeRoot, (&Neu->Tree), SymbolAdder, &EnterStruct);
     FirstLocSymbol = (PSymbolEntry)TreeRoot;
+    return !EnterStruct.Rejected;
 }
 
 static void EnterSymbol_Search(
@@ -2191,7 +2196,7 @@ static void EnterSymbol_Search(
     }
 }
 
-static void EnterSymbol(PSymbolEntry Neu, Boolean MayChange, LongInt ResHandle) {
+static Boolean EnterSymbol(PSymbolEntry Neu, Boolean MayChange, LongInt ResHandle) {
     PForwardSymbol  Lauf, Prev;
     PForwardSymbol* RRoot;
     Byte            SearchErg;
@@ -2209,6 +2214,7 @@ static void EnterSymbol(PSymbolEntry Neu, Boolean MayChange, LongInt ResHandle) 
     SearchErg             = 0;
     EnterStruct.MayChange = MayChange;
     EnterStruct.DoCross   = MakeCrossList;
+    EnterStruct.Rejected  = False;
     Neu->Tree.Attribute   = (ResHandle == -2) ? MomSectionHandle : ResHandle;
     if ((SectionStack) && (Neu->Tree.Attribute == MomSectionHandle)) {
         EnterSymbol_Search(
@@ -2262,6 +2268,7 @@ static void EnterSymbol(PSymbolEntry Neu, Boolean MayChange, LongInt ResHandle) 
     }
     EnterTree(&TreeRoot, &(Neu->Tree), SymbolAdder, &EnterStruct);
     FirstSymbol = (PSymbolEntry)TreeRoot;
+    return !EnterStruct.Rejected;
 }
 
 void PrintSymTree(char* Name) {
@@ -2343,13 +2350,17 @@ PSymbolEntry EnterIntSymbolWithFlags(
     pNeu->RefList               = NULL;
     pNeu->SymWert.Relocs        = NULL;
 
+    /* a rejected (e.g. double defined) entry has been freed by SymbolAdder() */
+
     if ((MomLocHandle == -1) || (DestHandle != -2)) {
-        EnterSymbol(pNeu, MayChange, DestHandle);
+        if (!EnterSymbol(pNeu, MayChange, DestHandle)) {
+            return NULL;
+        }
         if (MakeDebug) {
             PrintSymTree(pNeu->Tree.Name);
         }
-    } else {
-        EnterLocSymbol(pNeu);
+    } else if (!EnterLocSymbol(pNeu)) {
+        return NULL;
     }
     return pNeu;
 }
@@ -2423,13 +2434,17 @@ PSymbolEntry EnterRelSymbol(
     pNeu->SymWert.Relocs->Ref   = as_strdup(RelName_SegStart);
     pNeu->SymWert.Relocs->Add   = True;
 
+    /* a rejected (e.g. double defined) entry has been freed by SymbolAdder() */
+
     if ((MomLocHandle == -1) || (DestHandle != -2)) {
-        EnterSymbol(pNeu, MayChange, DestHandle);
+        if (!EnterSymbol(pNeu, MayChange, DestHandle)) {
+            return NULL;
+        }
         if (MakeDebug) {
             PrintSymTree(pNeu->Tree.Name);
         }
-    } else {
-        EnterLocSymbol(pNeu);
+    } else if (!EnterLocSymbol(pNeu)) {
+        return NULL;
     }
 
     return pNeu;
